@@ -377,7 +377,7 @@ impl<'a> Tr<'a> {
             Pat::Wild(_) => {}
             _ => {
                 let po = self.pat(pat, &o.ty)?;
-                if !po.conds.is_empty() || po.view.is_some() {
+                if !po.conds.is_empty() || po.view.is_some() || po.sview.is_some() {
                     return self.err(l.span(), "refutable pattern in `let` without `else`");
                 }
                 lines.push(format!("let {} := {}", po.lean, o.term));
